@@ -1,10 +1,21 @@
 (* C07 Sender disconnect: every stream drains everything, then sees the end.
-   Proved here, for every reachable state with fewer than 2^62 handles ever created: the writers counter that the
-   receivers test before reporting the end equals the number of live sender handles (so it is zero only when no
-   sender handle is alive, and a sender handle that exists keeps it positive), through every clone and drop at
-   any moment.  Not proved: that the stream is drained when the end is reported (needs the slot/tag invariant). *)
+   Proved here, for all configurations, populations of handles and schedules:
+   - the writers counter that the receivers test before reporting the end equals the number of live sender
+     handles (zero only when no sender handle is alive; a sender handle that exists keeps it positive), through
+     every clone and drop at any moment, and once zero it stays zero;
+   - C07_end_reported_only_when_drained: whenever a step of a receive (try_recv, recv, try_recv_view, recv_view,
+     poll: they all run the same attempt) turns the result into "disconnected", no sender handle is alive and the
+     cursor of the handle's stream equals the head counter: every value ever claimed has been consumed on that
+     stream (with Props/C01.v: delivered, each once, in order);
+   - C07_nothing_pending_without_senders: with no sender handle alive every claimed position is published (no
+     send is between claiming and publishing), so a consumer never waits for a value that will not come.
+   The last two are over [mreachN] (every execution without the publishing step of known finding F11) with fewer
+   than 2^62 handles and claimed values.  Not proved: that every blocked or parked consumer is woken when the
+   last sender goes (C08/C14). *)
 From Coq Require Import NArith List Bool.
-Require Import MQ.Arith64 MQ.Arith64Facts MQ.Types MQ.State MQ.Model MQ.Exec MQ.Reach MQ.Ctl MQ.Count MQ.WritersStep MQ.InvWriters MQ.InvMisc.
+Require Import MQ.Arith64 MQ.Arith64Facts MQ.Types MQ.State MQ.Model MQ.Exec MQ.Reach MQ.Ctl MQ.Count MQ.WritersStep MQ.InvWriters MQ.InvMisc
+  MQ.RecvDefs MQ.InvReg MQ.WinStep MQ.WinDefs MQ.InvWin MQ.WinRun MQ.SlotDefs MQ.InvSlot MQ.InvPub MQ.SlotStepH MQ.SlotStepI MQ.InvEnd.
+Import ListNotations.
 Open Scope N_scope.
 
 Theorem C07_writers_counts_live_senders : forall c fut s,
@@ -38,3 +49,60 @@ Example C07_witness :
   let s := reach_by c false (Start 0 CDrop :: repeat (Step 0) 40) in
   writers (sh s) = 0 /\ cnt cs (ags s) = 0.
 Proof. vm_compute. split; reflexivity. Qed.
+
+(* ---- the end is reported only when the stream is drained ---- *)
+Theorem C07_end_reported_only_when_drained : forall c fut s x X o,
+  0 < c_n c -> c_n c <= B61 -> mreachN c fut s ->
+  lenN (ags s) < B62 -> lenN (g_log (sh s)) < B62 ->
+  get (ags s) x = Some X -> micro c x X (sh s) = Some o ->
+  (a_pc X = R6 \/ a_pc X = R6b \/ a_pc X = V6) ->
+  is_discon (r_res (a_r X)) = false -> is_discon (r_res (a_r (o_a o))) = true ->
+  writers (sh s) = 0 /\ gpos (sh s) (a_sid X) = head (sh s).
+Proof.
+  intros c fut s x X o Np Ns R S1 S2 EX M PC D0 D1.
+  exact (end_reported_when_drained c Np Ns fut s x X o R (conj S1 S2) EX M PC D0 D1).
+Qed.
+Check C07_end_reported_only_when_drained : forall c fut s x X o,
+  0 < c_n c -> c_n c <= B61 -> mreachN c fut s ->
+  lenN (ags s) < B62 -> lenN (g_log (sh s)) < B62 ->
+  get (ags s) x = Some X -> micro c x X (sh s) = Some o ->
+  (a_pc X = R6 \/ a_pc X = R6b \/ a_pc X = V6) ->
+  is_discon (r_res (a_r X)) = false -> is_discon (r_res (a_r (o_a o))) = true ->
+  writers (sh s) = 0 /\ gpos (sh s) (a_sid X) = head (sh s).
+Print Assumptions C07_end_reported_only_when_drained.
+
+Theorem C07_nothing_pending_without_senders : forall c fut s,
+  0 < c_n c -> c_n c <= B61 -> mreachN c fut s ->
+  lenN (ags s) < B62 -> lenN (g_log (sh s)) < B62 -> writers (sh s) = 0 ->
+  forall q, q < head (sh s) ->
+    gtag (sh s) (sl c q) <> INITIAL_QUEUE_FLAG /\ q <= gtag (sh s) (sl c q).
+Proof.
+  intros c fut s Np Ns R S1 S2 W0 q L.
+  exact (all_published_when_no_writer c Np Ns fut s R (conj S1 S2) W0 q L).
+Qed.
+Check C07_nothing_pending_without_senders : forall c fut s,
+  0 < c_n c -> c_n c <= B61 -> mreachN c fut s ->
+  lenN (ags s) < B62 -> lenN (g_log (sh s)) < B62 -> writers (sh s) = 0 ->
+  forall q, q < head (sh s) ->
+    gtag (sh s) (sl c q) <> INITIAL_QUEUE_FLAG /\ q <= gtag (sh s) (sl c q).
+Print Assumptions C07_nothing_pending_without_senders.
+
+(* the only steps that set the result "disconnected" in a receive are those three *)
+Example C07_end_witness :
+  let c := mk_cfg BCast 2 WBusy in
+  exists s X o, mreachN c false s /\ lenN (ags s) < B62 /\ lenN (g_log (sh s)) < B62 /\
+    get (ags s) 1 = Some X /\ micro c 1 X (sh s) = Some o /\ a_pc X = R6 /\
+    is_discon (r_res (a_r X)) = false /\ is_discon (r_res (a_r (o_a o))) = true /\
+    writers (sh s) = 0 /\ gpos (sh s) 0 = 1 /\ head (sh s) = 1.
+Proof.
+  cbv zeta.
+  destruct (m_run true (mk_cfg BCast 2 WBusy) (init false)
+              [MCall 0 (CTrySend 5) 60; MBegin 0 CDrop; MSteps 0 12; MCall 1 CTryRecv 60; MBegin 1 CTryRecv; MSteps 1 7])
+    as [s|] eqn:E; [|vm_compute in E; discriminate E].
+  destruct (get (ags s) 1) as [X|] eqn:EX; [|vm_compute in E; injection E as <-; vm_compute in EX; discriminate EX].
+  destruct (micro (mk_cfg BCast 2 WBusy) 1 X (sh s)) as [o|] eqn:EM;
+    [|vm_compute in E; injection E as <-; vm_compute in EX; injection EX as <-; vm_compute in EM; discriminate EM].
+  exists s, X, o. split; [eapply m_run_sound; [apply mrn_init|exact E]|].
+  vm_compute in E. injection E as <-. vm_compute in EX. injection EX as <-. vm_compute in EM. injection EM as <-.
+  vm_compute. repeat split; intros Y; discriminate Y.
+Qed.
